@@ -264,8 +264,9 @@ def compare_sims(impl, model, stats, fails):
             fails.append(info)
         elif panicked and not same:
             info["kind"] = "impl-panic"
-            info["what"] = ("the real `bondmachine -sim` panics on an accepted rule file that the model runs to the end: "
-                            + unhx(cls.split()[-1]))
+            mcls = next((l for l in b["lines"] if l.startswith("X ")), "X ?")
+            info["what"] = ("the real `bondmachine -sim` panics on an accepted rule file (predicted outcome: %s): %s"
+                            % (mcls[2:], unhx(cls.split()[-1])))
             fails.append(info)
         elif has_periodic_set(a) and b["alt"] and a["lines"] == b["alt"]:
             # exactly the recorded defect: the run equals the model with periodic sets never applied
@@ -275,6 +276,15 @@ def compare_sims(impl, model, stats, fails):
             info["kind"] = "property-fails-on-impl"
             info["sub"] = "inject"
             info["what"] = "state handed to the machine step is not 'previous state + firing set rules': " + verdict[7:]
+            fails.append(info)
+        elif (cls == "X init") != (next((l for l in b["lines"] if l.startswith("X ")), "") == "X init"):
+            # the simulator refuses at start a rule file whose objects all name elements of the machine
+            # (or starts one that names an element the machine does not have)
+            info["kind"] = "property-fails-on-impl"
+            info["sub"] = "resolve"
+            info["what"] = ("object names are not resolved against the machine as written: the implementation %s the rule file, "
+                            "the elements of the machine (inputs, outputs, processor ports and registers as dumped in 'setup') say it %s"
+                            % (("refuses to start", "must start") if cls == "X init" else ("starts", "must be refused (unknown element)")))
             fails.append(info)
         elif trace_agrees and ik:
             # the machine trace (every IO dump the implementation printed) is the one the model predicts
